@@ -419,10 +419,11 @@ def match_finding(prop, witness):
 
 
 def write_evidence(prop, tier, seed, level, coverage, assumptions, wall, violations):
-    os.makedirs(os.path.join(ROOT, 'evidence'), exist_ok=True)
+    evdir = os.path.join(ROOT, 'evidence') if os.path.realpath(REPO) == '/repo' else os.path.join(OUT, 'evidence_alt')
+    os.makedirs(evdir, exist_ok=True)
     ev = {'property_id': prop, 'tier': tier, 'seed': int(seed), 'level': level, 'coverage': coverage,
           'assumptions': assumptions, 'wall_s': round(wall, 2), 'violations': int(violations)}
-    p = os.path.join(ROOT, 'evidence', prop + '.json')
+    p = os.path.join(evdir, prop + '.json')
     with open(p + '.tmp', 'w') as f:
         json.dump(ev, f, indent=1)
     os.replace(p + '.tmp', p)
